@@ -8,7 +8,7 @@ use crate::{
     flow::Flow,
     glue::Glue,
     ink_list::InkList,
-    json::{json_read, json_write},
+    json::{json_read, json_read::JsonReq, json_write},
     list_definitions_origin::ListDefinitionsOrigin,
     object::{Object, RTObject},
     path::Path,
@@ -369,8 +369,11 @@ impl StoryState {
             list.origins.borrow_mut().clear();
 
             for name in &origin_names {
-                let def = self.list_definitions.get_list_definition(name).unwrap();
-                if !list.origins.borrow().iter().any(|e| std::ptr::eq(e, def)) {
+                // A name that no LIST declares (damaged document) has no
+                // definition to attach.
+                if let Some(def) = self.list_definitions.get_list_definition(name)
+                    && !list.origins.borrow().iter().any(|e| std::ptr::eq(e, def))
+                {
                     list.origins.borrow_mut().push(def.clone());
                 }
             }
@@ -1280,6 +1283,9 @@ impl StoryState {
     }
 
     fn load_json_obj(&mut self, j_object: serde_json::Value) -> Result<(), StoryError> {
+        // Everything that can fail is parsed into local values first and the
+        // state is only touched once the whole document has been accepted, so
+        // that a malformed save leaves the story exactly as it was.
         let j_save_version = match j_object.get("inkSaveVersion") {
             Some(version) => version,
             None => {
@@ -1298,6 +1304,9 @@ impl StoryState {
             )));
         }
 
+        let new_current_flow: Flow;
+        let mut new_named_flows: Option<HashMap<String, Flow>> = None;
+
         // Flows: Always exists in latest format (even if there's just one default)
         // but this dictionary doesn't exist in prev format
         if let Some(flows_obj) = j_object.get("flows") {
@@ -1305,58 +1314,48 @@ impl StoryState {
                 .as_object()
                 .ok_or_else(|| StoryError::BadJson("Invalid flows object".to_string()))?;
 
-            // Single default flow
-            if flows_obj_dict.len() == 1 {
-                self.named_flows = None;
-            }
-            // Multi-flow, need to create flows dict
-            else if self.named_flows.is_none() {
-                self.named_flows = Some(HashMap::new());
-            }
-            // Multi-flow, already have a flows dict
-            else {
-                self.named_flows.as_mut().unwrap().clear();
-            }
+            let mut flows: HashMap<String, Flow> = HashMap::new();
 
             // Load up each flow (there may only be one)
             for (named_flow_name, named_flow_obj) in flows_obj_dict.iter() {
-                let name = named_flow_name.clone();
                 let flow_obj = named_flow_obj
                     .as_object()
                     .ok_or_else(|| StoryError::BadJson("Invalid flow object".to_string()))?;
 
                 // Load up this flow using JSON data
-                let flow = Flow::from_json(&name, self.main_content_container.clone(), flow_obj)?;
-
-                if flows_obj_dict.len() == 1 {
-                    self.current_flow =
-                        Flow::from_json(&name, self.main_content_container.clone(), flow_obj)?;
-                } else {
-                    self.named_flows
-                        .as_mut()
-                        .ok_or_else(|| {
-                            StoryError::BadJson("Named flows should be initialized".to_string())
-                        })?
-                        .insert(name, flow);
-                }
+                let flow = Flow::from_json(
+                    named_flow_name,
+                    self.main_content_container.clone(),
+                    flow_obj,
+                )?;
+                flows.insert(named_flow_name.clone(), flow);
             }
 
-            if let Some(named_flows) = &mut self.named_flows
-                && named_flows.len() > 1
-                && let Some(current_flow_name) = j_object.get("currentFlowName")
-                && let Some(curr_flow_name) = current_flow_name.as_str()
-                && let Some(curr_flow) = named_flows.get(curr_flow_name)
-            {
-                self.current_flow = curr_flow.clone();
-                named_flows.remove(curr_flow_name);
+            if flows.len() == 1 {
+                // Single default flow
+                new_current_flow = flows
+                    .into_values()
+                    .next()
+                    .ok_or_else(|| StoryError::BadJson("No flow in save".to_string()))?;
+            } else {
+                // Multi-flow: the current flow is taken out of the dictionary
+                let current_flow_name = j_object
+                    .get("currentFlowName")
+                    .and_then(|name| name.as_str())
+                    .ok_or_else(|| StoryError::BadJson("currentFlowName not found".to_string()))?;
+                new_current_flow = flows.remove(current_flow_name).ok_or_else(|| {
+                    StoryError::BadJson(format!(
+                        "The current flow '{current_flow_name}' is not among the saved flows"
+                    ))
+                })?;
+                new_named_flows = Some(flows);
             }
         }
         // Old format: individually load up callstack, output stream, choices in
         // current/default flow
         else {
-            self.named_flows = None;
-            self.current_flow.name = "default".to_owned(); // Replace with the default flow name
-            self.current_flow.callstack.borrow_mut().load_json(
+            let mut flow = Flow::new("default", self.main_content_container.clone());
+            flow.callstack.borrow_mut().load_json(
                 &self.main_content_container,
                 j_object
                     .get("callstackThreads")
@@ -1365,89 +1364,125 @@ impl StoryState {
             )?;
 
             if let Some(output_stream_obj) = j_object.get("outputStream") {
-                self.current_flow.output_stream = json_read::jarray_to_runtime_obj_list(
-                    output_stream_obj.as_array().unwrap(),
-                    false,
-                )?;
+                flow.output_stream =
+                    json_read::jarray_to_runtime_obj_list(output_stream_obj.req_array()?, false)?;
             }
 
             if let Some(current_choices_obj) = j_object.get("currentChoices") {
-                self.current_flow.current_choices = json_read::jarray_to_runtime_obj_list(
-                    current_choices_obj.as_array().unwrap(),
-                    false,
-                )?
-                .iter()
-                .map(|o| o.clone().into_any().downcast::<Choice>().unwrap())
-                .collect();
+                for o in
+                    json_read::jarray_to_runtime_obj_list(current_choices_obj.req_array()?, false)?
+                {
+                    flow.current_choices
+                        .push(o.into_any().downcast::<Choice>().map_err(|_| {
+                            StoryError::BadJson(
+                                "currentChoices holds something that is not a choice".to_owned(),
+                            )
+                        })?);
+                }
             }
 
             let j_choice_threads_obj = j_object.get("choiceThreads");
-            self.current_flow.load_flow_choice_threads(
+            flow.load_flow_choice_threads(
                 j_choice_threads_obj,
                 self.main_content_container.clone(),
             )?;
+
+            new_current_flow = flow;
         }
 
+        let mut new_variables_state = self.variables_state.clone();
+        if let Some(variables_state_obj) = j_object.get("variablesState") {
+            new_variables_state.load_json(variables_state_obj.as_object().ok_or_else(|| {
+                StoryError::BadJson("Invalid variables state object".to_string())
+            })?)?;
+        }
+
+        let new_evaluation_stack = match j_object.get("evalStack") {
+            Some(eval_stack_obj) => Some(json_read::jarray_to_runtime_obj_list(
+                eval_stack_obj.req_array()?,
+                false,
+            )?),
+            None => None,
+        };
+
+        let new_diverted_pointer = match j_object.get("currentDivertTarget") {
+            Some(current_divert_target_path) => {
+                let divert_path =
+                    Path::new_with_components_string(current_divert_target_path.as_str());
+                Some(Story::pointer_at_path(&self.main_content_container, &divert_path)?.clone())
+            }
+            None => None,
+        };
+
+        let new_visit_counts = match j_object.get("visitCounts") {
+            Some(visit_counts_obj) => Some(json_read::jobject_to_int_hashmap(
+                visit_counts_obj
+                    .as_object()
+                    .ok_or_else(|| StoryError::BadJson("Invalid visit counts object".to_string()))?,
+            )?),
+            None => None,
+        };
+
+        let new_turn_indices = match j_object.get("turnIndices") {
+            Some(turn_indices_obj) => Some(json_read::jobject_to_int_hashmap(
+                turn_indices_obj
+                    .as_object()
+                    .ok_or_else(|| StoryError::BadJson("Invalid turn indices object".to_string()))?,
+            )?),
+            None => None,
+        };
+
+        let new_turn_index = match j_object.get("turnIdx") {
+            Some(current_turn_index) => Some(current_turn_index.req_i32()?),
+            None => None,
+        };
+
+        let new_story_seed = match j_object.get("storySeed") {
+            Some(story_seed) => Some(story_seed.req_i32()?),
+            None => None,
+        };
+
+        // Not optional, but bug in inkjs means it's actually missing in inkjs saves
+        let new_previous_random = match j_object.get("previousRandom") {
+            Some(previous_random_obj) => previous_random_obj.req_i32()?,
+            None => 0,
+        };
+
+        // ---- the document is acceptable: commit
+        self.current_flow = new_current_flow;
+        self.named_flows = new_named_flows;
         self.output_stream_dirty();
         self.alive_flow_names_dirty = true;
 
-        if let Some(variables_state_obj) = j_object.get("variablesState") {
-            self.variables_state
-                .load_json(variables_state_obj.as_object().ok_or_else(|| {
-                    StoryError::BadJson("Invalid variables state object".to_string())
-                })?)?;
-            self.variables_state
-                .set_callstack(self.current_flow.callstack.clone());
+        self.variables_state = new_variables_state;
+        self.variables_state
+            .set_callstack(self.current_flow.callstack.clone());
+
+        if let Some(evaluation_stack) = new_evaluation_stack {
+            self.evaluation_stack = evaluation_stack;
         }
 
-        if let Some(eval_stack_obj) = j_object.get("evalStack") {
-            self.evaluation_stack =
-                json_read::jarray_to_runtime_obj_list(eval_stack_obj.as_array().unwrap(), false)?;
+        if let Some(diverted_pointer) = new_diverted_pointer {
+            self.diverted_pointer = diverted_pointer;
         }
 
-        if let Some(current_divert_target_path) = j_object.get("currentDivertTarget") {
-            let divert_path = Path::new_with_components_string(current_divert_target_path.as_str());
-            self.diverted_pointer =
-                Story::pointer_at_path(&self.main_content_container, &divert_path)?.clone();
+        if let Some(visit_counts) = new_visit_counts {
+            self.visit_counts = visit_counts;
         }
 
-        if let Some(visit_counts_obj) = j_object.get("visitCounts") {
-            self.visit_counts =
-                json_read::jobject_to_int_hashmap(visit_counts_obj.as_object().ok_or_else(
-                    || StoryError::BadJson("Invalid visit counts object".to_string()),
-                )?)?;
+        if let Some(turn_indices) = new_turn_indices {
+            self.turn_indices = turn_indices;
         }
 
-        if let Some(turn_indices_obj) = j_object.get("turnIndices") {
-            self.turn_indices =
-                json_read::jobject_to_int_hashmap(turn_indices_obj.as_object().ok_or_else(
-                    || StoryError::BadJson("Invalid turn indices object".to_string()),
-                )?)?;
+        if let Some(turn_index) = new_turn_index {
+            self.current_turn_index = turn_index;
         }
 
-        if let Some(current_turn_index) = j_object.get("turnIdx") {
-            self.current_turn_index = current_turn_index
-                .as_i64()
-                .ok_or_else(|| StoryError::BadJson("Invalid current turn index".to_string()))?
-                as i32;
+        if let Some(story_seed) = new_story_seed {
+            self.story_seed = story_seed;
         }
 
-        if let Some(story_seed) = j_object.get("storySeed") {
-            self.story_seed = story_seed
-                .as_i64()
-                .ok_or_else(|| StoryError::BadJson("Invalid story seed".to_string()))?
-                as i32;
-        }
-
-        // Not optional, but bug in inkjs means it's actually missing in inkjs saves
-        if let Some(previous_random_obj) = j_object.get("previousRandom") {
-            self.previous_random = previous_random_obj
-                .as_i64()
-                .ok_or_else(|| StoryError::BadJson("Invalid previous random value".to_string()))?
-                as i32;
-        } else {
-            self.previous_random = 0;
-        }
+        self.previous_random = new_previous_random;
 
         Ok(())
     }
